@@ -2,8 +2,8 @@
 
 LIBS_IO = ["-lz", "-lbz2", "-lexpat", "-llz4"]
 
-SIM_IO = ["sim.cpp", "simfs.cpp", "clamp.cpp", "sanitizer_opts.cpp"]
-WRAPS_IO = ["wraps_sched.txt", "wraps_fs.txt", "wraps_clamp.txt"]
+SIM_IO = ["sim.cpp", "simfs.cpp", "clamp.cpp", "lz4wrap.cpp", "sanitizer_opts.cpp"]
+WRAPS_IO = ["wraps_sched.txt", "wraps_fs.txt", "wraps_clamp.txt", "wraps_lz4.txt"]
 
 HARNESSES = {
     "reader": {
@@ -31,8 +31,8 @@ HARNESSES = {
     },
     "c09": {
         "source": "c09.cpp",
-        "sim_sources": SIM_IO,
-        "wraps": WRAPS_IO,
+        "sim_sources": ["sim.cpp", "simfs.cpp", "clamp.cpp", "sanitizer_opts.cpp"],
+        "wraps": ["wraps_sched.txt", "wraps_fs.txt", "wraps_clamp.txt"],
         "libs": ["-lz", "-lbz2"],
         "variants": ["san"],
     },
@@ -135,7 +135,8 @@ PROPERTIES["C03"] = {
     "expected_probes": ["damaged input rejected with an exception", "damaged input accepted"],
     "components_real": READER_REAL,
     "components_stubbed": READER_STUB,
-    "assumptions": COMMON_ASSUMPTIONS + ["restricted claim: the neighbourhood of valid files that storage faults produce is sampled; no coverage-guided search over all byte strings (that is fuzzing, a different technique family)"],
+    "assumptions": COMMON_ASSUMPTIONS + ["restricted claim: the neighbourhood of valid files that storage faults produce is sampled; no coverage-guided search over all byte strings (that is fuzzing, a different technique family)",
+                                        "verdict policy: any AddressSanitizer report and any UndefinedBehaviorSanitizer report counts as a violation (undefined behaviour on hostile input is treated like a memory error), except signed-integer-overflow (not instrumented: the delta coding wraps deliberately) and ASan's allocation-size/out-of-memory reports (std::bad_alloc without ASan: printed as NOTE)"],
 }
 
 PROPERTIES["C09"] = {
@@ -161,7 +162,7 @@ WRITER_REAL = ["osmium::io::Writer with its pool workers and write thread", "XML
 PROPERTIES["C08"] = {
     "level": "fault_enumeration",
     "budget_s": {"quick": 80, "thorough": 1500},
-    "rule": "one evaluation = one generated data set written by the real Writer (XML, XML change, OPL, PBF x none/gzip/bzip2 x fsync x feeding script of whole buffers / single items / flush()) under a seeded schedule with soft perturbation (short writes, EINTR on the plain path) and at most one hard fault: the write reaching byte offset o of the would-be output fails (ENOSPC/EFBIG/EIO, with or without a preceding partial write), fsync fails, the n-th close fails, compress2() fails in a pool worker, or an object the OPL encoder cannot encode. o is drawn over the size learnt from a fault-free reference write of the same script. "
+    "rule": "one evaluation = one generated data set written by the real Writer (XML, XML change, OPL, PBF x none/gzip/bzip2 x fsync x feeding script of whole buffers / single items / flush()) under a seeded schedule with soft perturbation (short writes, EINTR on the plain path) and at most one hard fault: the write reaching byte offset o of the would-be output fails (ENOSPC/EFBIG/EIO, with or without a preceding partial write), fsync fails, the n-th close fails, the compressor fails (deflate under gzwrite/gzclose_w/compress2, BZ2_bzCompress, LZ4_compress_fast - in the write thread or in a pool worker), or an object the OPL encoder cannot encode. o is drawn over the size learnt from a fault-free reference write of the same script. "
             "Non-trivial = a fault fired or >= 2 threads enabled at once; distinct = distinct event-log signature.",
     "modes": [
         {"mode": "c08", "harness": "writer", "runs": {"quick": 30000, "thorough": 1500000}, "share": 0.6},
@@ -169,7 +170,7 @@ PROPERTIES["C08"] = {
     ],
     "expected_probes": ["hard fault fired", "exception reached the caller", "fault-free or soft-only run succeeded", "enumerated fault points"],
     "components_real": WRITER_REAL,
-    "components_stubbed": READER_STUB + ["compress2() failure injected by a link-time wrapper"],
+    "components_stubbed": READER_STUB + ["compressor failure (deflate / BZ2_bzCompress / LZ4_compress_fast returning an error on the tape-chosen call) injected by link-time wrappers"],
     "assumptions": COMMON_ASSUMPTIONS + ["mode c08: fault offsets are sampled by the seed over the whole would-be output (with a bias to the last 16 bytes); mode c08enum: every byte offset is enumerated for small workloads (<= 6000 output bytes), one errno/partial/transient variant per workload", "write() returning 0 for a non-zero count is not injected (cannot happen on regular files)"],
 }
 
